@@ -19,6 +19,9 @@ CONSTANTS
   EmitDyn = FALSE
   MaxHist = 3
   MaxReorders = 1
+  NameOrder <- NameOrderA
+  BuildCfgs <- BuildCfgsA
+  IntegrCfgs <- IntegrCfgsNone
   UnitCfgs <- UnitsNone
   Times <- TimesA
   Tol <- TolA
